@@ -1082,6 +1082,17 @@ class ScopeRoundTrip(Stream):
             {"m": [s("s", [d("a", "int")]), s("t", [s("s", [d("b", "str")]), s("s", [d("__x", "int")])], mult=True),
                    s("s", [d("__x", "int"), d("x__", "key")])], "src": "s.__x = 5\nt { s.__x = 7 }\n", "mut": [[["s", "__x"], ["int", "9"]]],
              "kind": "split"},
+            # repaired in 3d13dfd (formerly C16-join-disabled): the placeholder of a disabled object in a LATER block of a scope
+            # leaves the scope / the .multiple list of the earlier block alone
+            {"m": [s("s", [s("t", [d("a", "none", dflt="1")])]), s("s", [s("t", [d("b", "none", dflt="2")], dis=True)])],
+             "src": "", "mut": [], "kind": "regress", "direct": True,
+             "expect": ["scope", "", [["s", ["scope", "s", [["t", ["scope", "t", [["a", ["list", ["str", "1"]]]]]]]]]]]},
+            {"m": [s("s", [s("t", [d("a", "none", dflt="1")])]), s("s", [d("t", "none", dis=True, dflt="3")])],
+             "src": "", "mut": [], "kind": "regress", "direct": True,
+             "expect": ["scope", "", [["s", ["scope", "s", [["t", ["scope", "t", [["a", ["list", ["str", "1"]]]]]]]]]]]},
+            {"m": [s("s", [d("m", "int", mult=True, dflt="1")]), s("s", [d("m", "int", dis=True, dflt="2")])],
+             "src": "", "mut": [], "kind": "regress", "direct": True,
+             "expect": ["scope", "", [["s", ["scope", "s", [["m", ["slist", ["none"], ["num", ["i", "1"]]]]]]]]]},
             {"m": [d("a", "int"), s("s", [d("b", "str"), d("c", "choicem")])], "src": "a = 5\ns.b = x y\n", "mut": [[["s", "b"], ["str", "q\"r"]]], "kind": "nomult"},
             {"m": [d("a", "ints", mult=True), s("s", [d("b", "bool")], mult=True)], "src": "a = 1 2\na = 3\ns { b = False }\ns { b = None }\n",
              "mut": [[["a"], ["mlist", [["list", [["int", "7"]]]]]], [["s"], ["mdup", 0]]], "kind": "mult"},
